@@ -44,13 +44,34 @@ Proof.
   injection H as <-. cbn. auto.
 Qed.
 
-Lemma lift_chain_any h : forall rest st acc first,
-  WF (hs st) -> exists st', lift_chain st h acc first rest = Ok st' /\ WF (hs st').
+(* one stage of a lift chain: the last stage owns the user function and its captured handles *)
+Definition lift_tm (rest keeps : list slot) : tmpl :=
+  match rest with [] => with_keeps t_lift2 3 2 (length keeps) | _ => t_lift2 end.
+Definition lift_ar (acc c : slot) (rest keeps : list slot) : list slot :=
+  match rest with [] => [acc; c] ++ keeps | _ => [acc; c] end.
+
+Lemma lift_chain_cons st h acc first c t keeps :
+  lift_chain st h acc first (c :: t) keeps =
+  match run_ops st (inst_ops (lift_tm t keeps) (lift_ar acc c t keeps) (base_of st)) (t_new (lift_tm t keeps)) with
+  | Ok st1 =>
+    match (if first then Ok st1 else run_ops st1 (drop_slot_ops acc) []) with
+    | Ok st2 => lift_chain st2 h (inst_slot (lift_tm t keeps) (lift_ar acc c t keeps) (base_of st)) false t keeps
+    | Panic e => Panic e
+    | OutOfFuel => OutOfFuel
+    end
+  | Panic e => Panic e
+  | OutOfFuel => OutOfFuel
+  end.
+Proof. reflexivity. Qed.
+
+Lemma lift_chain_any h keeps : forall rest st acc first,
+  WF (hs st) -> exists st', lift_chain st h acc first rest keeps = Ok st' /\ WF (hs st').
 Proof.
   induction rest as [|c rest IH]; intros st acc first W.
   - cbn [lift_chain]. eexists. split; [reflexivity|exact W].
-  - cbn [lift_chain].
-    destruct (run_ops_any st (inst_ops t_lift2 [acc; c] (base_of st)) (t_new t_lift2) W) as (st1 & E1 & W1).
+  - rewrite lift_chain_cons.
+    destruct (run_ops_any st (inst_ops (lift_tm rest keeps) (lift_ar acc c rest keeps) (base_of st))
+                (t_new (lift_tm rest keeps)) W) as (st1 & E1 & W1).
     rewrite E1.
     assert (X : exists st2, (if first then Ok st1 else run_ops st1 (drop_slot_ops acc) []) = Ok st2 /\ WF (hs st2)).
     { destruct first; [eexists; split; [reflexivity|exact W1]|]. apply run_ops_any. exact W1. }
@@ -61,14 +82,15 @@ Theorem hstep_total : forall st op, WF (hs st) -> exists st', hstep st op = Ok s
 Proof.
   intros st op W.
   assert (Same : exists st', Ok st = Ok st' /\ WF (hs st')) by (exists st; split; [reflexivity|exact W]).
-  destruct op as [h p args|h args|h c|l t|l s strong|l c|l|l|h h'|h| |]; cbn [hstep].
+  destruct op as [h p args keeps|h args keeps|h c|l t|l s strong|l c|l|l|h h'|h| |]; cbn [hstep].
   - destruct (lookups (slots st) args) as [sl|]; [|exact Same].
+    destruct (lookups (slots st) keeps) as [kl|]; [|exact Same].
     destruct (free_slot st h && arity_ok p (length args)); [|exact Same].
     unfold def_slot.
-    destruct (run_ops_any st (inst_ops (tmpl_of p (length args)) sl (base_of st))
-                (t_new (tmpl_of p (length args))) W) as (st1 & E1 & W1).
+    match goal with |- context [run_ops st ?o ?n] => destruct (run_ops_any st o n W) as (st1 & E1 & W1) end.
     rewrite E1. eexists. split; [reflexivity|exact W1].
   - destruct (lookups (slots st) args) as [[|a [|b rest]]|]; try exact Same.
+    destruct (lookups (slots st) keeps) as [kl|]; [|exact Same].
     destruct (free_slot st h); [|exact Same]. apply lift_chain_any. exact W.
   - destruct (lookup (slots st) c) as [sc|]; [|exact Same].
     destruct (free_slot st h); [|exact Same].
@@ -383,8 +405,35 @@ Proof.
   destruct p; cbn [arity_ok] in A; try (apply Nat.eqb_eq in A; subst n); reflexivity.
 Qed.
 
+(* more arguments never hurt, and captured handles only add edges *)
+Lemma ref_arg_mono n m r : n <= m -> ref_arg n r = true -> ref_arg m r = true.
+Proof.
+  intros Le. destruct r as [i|i|k]; cbn [ref_arg]; intros H; try discriminate;
+    apply Nat.ltb_lt in H; apply Nat.ltb_lt; lia.
+Qed.
+
+Lemma tmpl_ok_mono t n m : n <= m -> tmpl_ok t n -> tmpl_ok t m.
+Proof.
+  intros Le [K1 K2 K3 K4 K5]. constructor; try assumption.
+  intros r Hr. apply (ref_arg_mono n m r Le). apply K3. exact Hr.
+Qed.
+
+Lemma tmpl_ok_with_keeps t owner first nk n : tmpl_ok t n -> tmpl_ok (with_keeps t owner first nk) n.
+Proof. intros [K1 K2 K3 K4 K5]. constructor; assumption. Qed.
+
+Lemma tmpl_with_ok p n nk : arity_ok p n = true -> tmpl_ok (tmpl_with p n nk) (n + nk).
+Proof.
+  intros A. apply (tmpl_ok_mono _ n); [lia|]. unfold tmpl_with.
+  destruct (fun_owner p); [apply tmpl_ok_with_keeps|]; apply tmpl_of_ok; exact A.
+Qed.
+
 Lemma t_lift2_ok : tmpl_ok t_lift2 2.
 Proof. apply tmpl_okb_ok. reflexivity. Qed.
+
+Lemma lift_tm_ok rest keeps : tmpl_ok (lift_tm rest keeps) 2.
+Proof. unfold lift_tm. destruct rest; [apply tmpl_ok_with_keeps|]; exact t_lift2_ok. Qed.
+Lemma lift_tm_gclone rest keeps : t_gclone (lift_tm rest keeps) = [].
+Proof. unfold lift_tm. destruct rest; reflexivity. Qed.
 Lemma t_listen_ok : tmpl_ok t_listen 1.
 Proof. apply tmpl_okb_ok. reflexivity. Qed.
 Lemma t_listen_c_ok : tmpl_ok t_listen_c 1.
@@ -616,6 +665,16 @@ Proof.
     + apply Nth. cbn [length] in Hi. lia.
 Qed.
 
+Lemma lookups_app sl : forall a b la lb,
+  lookups sl a = Some la -> lookups sl b = Some lb -> lookups sl (a ++ b) = Some (la ++ lb).
+Proof.
+  induction a as [|k a IH]; intros b la lb Ha Hb; cbn [lookups app] in *.
+  - injection Ha as <-. exact Hb.
+  - destruct (lookup sl k) as [s|]; [|discriminate].
+    destruct (lookups sl a) as [r|] eqn:Er; [|discriminate]. injection Ha as <-.
+    rewrite (IH b r lb eq_refl Hb). reflexivity.
+Qed.
+
 Lemma run_ops_ext st ops nn st1 :
   run_ops st ops nn = Ok st1 ->
   ext (hs st1) = ext_run (ext (hs st)) ops /\ slots st1 = slots st /\ lsn st1 = lsn st.
@@ -726,45 +785,47 @@ Lemma run_ops_WF st ops nn st1 : WF (hs st) -> run_ops st ops nn = Ok st1 -> WF 
 Proof. intros W H. apply run_ops_inv in H as (R & _). apply (srun_WF _ _ _ W R). Qed.
 
 (* lift2 .. lift6 *)
-Lemma lift_chain_inv h : forall rest st acc st',
+Lemma lift_chain_inv h keeps : forall rest st acc st',
   WF (hs st) -> NoDup (map fst (slots st)) -> NoDup (map fst (lsn st)) ->
   (forall k s, lookup (slots st) k = Some s -> slot_ok s) ->
   free_slot st h = true -> slot_ok acc ->
   (forall o, nth o (ext (hs st)) 0 = cn (sl_h (slots st)) o + cn (ls_h (lsn st)) o + cn (s_h acc ++ s_g acc) o) ->
-  lift_chain st h acc false rest = Ok st' -> TInv st'.
+  lift_chain st h acc false rest keeps = Ok st' -> TInv st'.
 Proof.
-  induction rest as [|c rest IH]; intros st acc st' W N1 N2 OK F Oa T H; cbn [lift_chain] in H.
-  - injection H as <-. apply with_slot_inv; try assumption.
+  induction rest as [|c rest IH]; intros st acc st' W N1 N2 OK F Oa T H.
+  - cbn [lift_chain] in H. injection H as <-. apply with_slot_inv; try assumption.
     intros o. unfold ext_of. rewrite T, (remove_key_none _ _ (free_slot_none _ _ F)). reflexivity.
-  - rewrite (WF_len st W) in H.
-    destruct (run_ops st (inst_ops t_lift2 [acc; c] (length (ext (hs st)))) (t_new t_lift2)) as [st1| |] eqn:R1;
+  - rewrite lift_chain_cons, (WF_len st W) in H.
+    set (tm := lift_tm rest keeps) in *. set (ar := lift_ar acc c rest keeps) in *.
+    destruct (run_ops st (inst_ops tm ar (length (ext (hs st)))) (t_new tm)) as [st1| |] eqn:R1;
       try discriminate.
     destruct (run_ops st1 (drop_slot_ops acc) []) as [st2| |] eqn:R2; try discriminate.
     pose proof (run_ops_WF _ _ _ _ W R1) as W1. pose proof (run_ops_WF _ _ _ _ W1 R2) as W2.
     apply run_ops_ext in R1 as (E1 & S1 & L1). apply run_ops_ext in R2 as (E2 & S2 & L2).
-    destruct (inst_ext t_lift2 [acc; c] (ext (hs st)) (ok_nodup _ _ t_lift2_ok) (ok_range _ _ t_lift2_ok))
-      as (_ & Nx); [intros r []|].
+    destruct (inst_ext tm ar (ext (hs st)) (ok_nodup _ _ (lift_tm_ok rest keeps)) (ok_range _ _ (lift_tm_ok rest keeps)))
+      as (_ & Nx); [unfold tm; rewrite lift_tm_gclone; intros r []|].
     refine (IH st2 _ st' W2 _ _ _ _ _ _ H); rewrite ?S2, ?L2, ?S1, ?L1; try assumption.
     + unfold free_slot. rewrite S2, S1. exact F.
-    + apply (inst_slot_ok t_lift2 2 _ _ t_lift2_ok).
+    + apply (inst_slot_ok tm 2 _ _ (lift_tm_ok rest keeps)).
     + intros o. rewrite E2. unfold drop_slot_ops. rewrite <- map_app.
       destruct (ext_run_drops (s_h acc ++ s_g acc) (ext (hs st1))) as (_ & Nd). rewrite Nd, E1, Nx, T.
       rewrite (count_occ_app _ (s_h (inst_slot _ _ _))). lia.
 Qed.
 
-Lemma hlift_inv st h a b rest st' :
+Lemma hlift_inv st h a b rest keeps st' :
   WF (hs st) -> TInv st -> free_slot st h = true ->
-  lift_chain st h a true (b :: rest) = Ok st' -> TInv st'.
+  lift_chain st h a true (b :: rest) keeps = Ok st' -> TInv st'.
 Proof.
-  intros W [T N1 N2 OK] F H. cbn [lift_chain] in H. rewrite (WF_len st W) in H.
-  destruct (run_ops st (inst_ops t_lift2 [a; b] (length (ext (hs st)))) (t_new t_lift2)) as [st1| |] eqn:R1;
+  intros W [T N1 N2 OK] F H. rewrite lift_chain_cons, (WF_len st W) in H.
+  set (tm := lift_tm rest keeps) in *. set (ar := lift_ar a b rest keeps) in *.
+  destruct (run_ops st (inst_ops tm ar (length (ext (hs st)))) (t_new tm)) as [st1| |] eqn:R1;
     try discriminate.
   pose proof (run_ops_WF _ _ _ _ W R1) as W1. apply run_ops_ext in R1 as (E1 & S1 & L1).
-  destruct (inst_ext t_lift2 [a; b] (ext (hs st)) (ok_nodup _ _ t_lift2_ok) (ok_range _ _ t_lift2_ok))
-    as (_ & Nx); [intros r []|].
-  refine (lift_chain_inv h rest st1 _ st' W1 _ _ _ _ _ _ H); rewrite ?S1, ?L1; try assumption.
+  destruct (inst_ext tm ar (ext (hs st)) (ok_nodup _ _ (lift_tm_ok rest keeps)) (ok_range _ _ (lift_tm_ok rest keeps)))
+    as (_ & Nx); [unfold tm; rewrite lift_tm_gclone; intros r []|].
+  refine (lift_chain_inv h keeps rest st1 _ st' W1 _ _ _ _ _ _ H); rewrite ?S1, ?L1; try assumption.
   - unfold free_slot. rewrite S1. exact F.
-  - apply (inst_slot_ok t_lift2 2 _ _ t_lift2_ok).
+  - apply (inst_slot_ok tm 2 _ _ (lift_tm_ok rest keeps)).
   - intros o. rewrite E1, Nx, (tracked_split st o T), (count_occ_app _ (s_h (inst_slot _ _ _))). lia.
 Qed.
 
@@ -806,16 +867,19 @@ Proof. intros N L. unfold ls_h. rewrite (cn_flat_split _ l k r o N L). reflexivi
 Theorem hstep_TInv st op st' : WF (hs st) -> TInv st -> hstep st op = Ok st' -> TInv st'.
 Proof.
   intros W I H. pose proof I as [T N1 N2 OK].
-  destruct op as [h p args|h args|h c|l t|l s strong|l c|l|l|h h'|h| |]; cbn [hstep] in H.
+  destruct op as [h p args keeps|h args keeps|h c|l t|l s strong|l c|l|l|h h'|h| |]; cbn [hstep] in H.
   - (* HDef *)
     destruct (lookups (slots st) args) as [sl|] eqn:L; [|injection H as <-; exact I].
+    destruct (lookups (slots st) keeps) as [kl|] eqn:Lk; [|injection H as <-; exact I].
     destruct (free_slot st h) eqn:F; cbn [andb] in H; [|injection H as <-; exact I].
     destruct (arity_ok p (length args)) eqn:A; [|injection H as <-; exact I].
-    apply (def_slot_inv st h _ args sl _ st' W I F (tmpl_of_ok _ _ A) L H).
+    pose proof (tmpl_with_ok p (length args) (length keeps) A) as K. rewrite <- app_length in K.
+    apply (def_slot_inv st h _ (args ++ keeps) (sl ++ kl) _ st' W I F K (lookups_app _ _ _ _ _ L Lk) H).
   - (* HLift *)
     destruct (lookups (slots st) args) as [[|a [|b rest]]|]; try (injection H as <-; exact I).
+    destruct (lookups (slots st) keeps) as [kl|]; [|injection H as <-; exact I].
     destruct (free_slot st h) eqn:F; [|injection H as <-; exact I].
-    apply (hlift_inv st h a b rest st' W I F H).
+    apply (hlift_inv st h a b rest kl st' W I F H).
   - (* HUpdates *)
     destruct (lookup (slots st) c) as [sc|] eqn:L; [|injection H as <-; exact I].
     destruct (free_slot st h) eqn:F; [|injection H as <-; exact I].
